@@ -1,6 +1,7 @@
 import VibeProof.Model.Text
 import VibeProof.Lemmas.Text
 import VibeProof.Lemmas.Csv
+import VibeProof.Lemmas.Header
 /-
 C31 — CLI import/export transfers data faithfully and safely.
 
@@ -113,6 +114,156 @@ theorem C31_validated_name_inert (name : Str) (h : nameCharsOk name = true) :
   simp only [nameCharsOk, List.all_eq_true, Bool.and_eq_true, decide_eq_true_eq] at h
   obtain ⟨⟨⟨⟨a, b⟩, c'⟩, d⟩, e⟩ := h c hc
   exact ⟨a, b, c', d, e⟩
+
+/-! ## T5: validator and importer agree on what the header is -/
+
+theorem noQuote_of_pieces (raw : Str) (hq : ∀ p ∈ splitOn ',' raw, ∀ x ∈ p, x ≠ '"') :
+    ∀ c ∈ raw, c ≠ '"' := by
+  intro c hc
+  rw [splitOn_acc] at hq
+  rcases splitAcc_chars (fun x => x = '"') raw [] [] (fun p hp x hx => hq p hp x hx) c hc with h | h
+  · rw [h]; decide
+  · exact h
+
+theorem finish_line (cells : List Str) (cur : Str) :
+    rFinish { rows := [], cells := cells, mode := modeOf cur, fresh := false } =
+      .ok [piecesOf (cells, cur)] := by
+  cases hcur : cur with
+  | nil => simp [rFinish, modeOf, endRow, piecesOf]
+  | cons x xs => simp [rFinish, modeOf, endRow, piecesOf]
+
+theorem newline_line (cells : List Str) (cur : Str) (fr : Bool) :
+    ∃ st', rStep { rows := [], cells := cells, mode := modeOf cur, fresh := fr } '\n' = .ok st' ∧
+      st'.rows = [piecesOf (cells, stripCr cur)] := by
+  cases hcur : cur with
+  | nil => exact ⟨_, by simp [rStep, modeOf]; rfl, by simp [endRow, piecesOf, stripCr]⟩
+  | cons x xs => exact ⟨_, by simp [rStep, modeOf]; rfl, by simp [endRow, piecesOf]⟩
+
+/-- when line 1 has no double quote, the first record the importer reads is line 1 split at the
+commas — the very pieces the validator looks at -/
+theorem header_record (text L : Str) (hL : firstLine text = some L)
+    (hq : ∀ p ∈ splitOn ',' L, ∀ x ∈ p, x ≠ '"') (h : List Str) (hr : firstRecord text = some h) :
+    h = splitOn ',' L := by
+  have hne : text ≠ [] := by
+    intro e; subst e; simp [firstLine] at hL
+  have hL' : firstLineAux [] text = L := by
+    cases text with
+    | nil => exact absurd rfl hne
+    | cons c cs => simpa [firstLine] using hL
+  obtain ⟨raw, hraw, hcase⟩ := firstLineAux_split text []
+  rcases hcase with ⟨e1, e2⟩ | ⟨rest, e1, e2⟩
+  · -- the file is one line without a line break
+    have eL : L = raw := by rw [← hL', e2]; simp
+    subst eL
+    have hnq := noQuote_of_pieces L hq
+    have hrun := rRun_line L (fun c hc => ⟨hraw c hc, hnq c hc⟩) rInit [] [] rfl (by simp)
+    simp only [List.append_nil, rRun] at hrun
+    have hLne : L ≠ [] := by rw [← e1]; exact hne
+    have hrun' : rRun rInit L =
+        .ok { rows := [], cells := (splitAcc [] [] L).1, mode := modeOf (splitAcc [] [] L).2, fresh := false } := by
+      rw [hrun]
+      cases L with
+      | nil => exact absurd rfl hLne
+      | cons _ _ => simp [rInit]
+    simp only [firstRecord, parseCsv, e1, hrun', finish_line] at hr
+    injection hr with hr
+    rw [← hr, splitOn_acc]
+  · -- line 1 ends with a line break
+    have eL : L = (stripCr raw.reverse).reverse := by rw [← hL', e2]; simp
+    have hnqL := noQuote_of_pieces L hq
+    have hnq : ∀ c ∈ raw, c ≠ '"' := by
+      intro c hc hcq
+      subst hcq
+      -- a quote of the raw line survives the CR stripping
+      have : '"' ∈ L := by
+        rw [eL]
+        cases hrr : raw.reverse with
+        | nil => have : raw = [] := by simpa using hrr
+                 subst this; simp at hc
+        | cons x t =>
+          have hmem : '"' ∈ x :: t := by rw [← hrr]; simpa using hc
+          by_cases hx : x = '\r'
+          · subst hx
+            simp only [stripCr, List.mem_reverse]
+            simp only [List.mem_cons] at hmem
+            rcases hmem with hm | hm
+            · exact absurd hm (by decide)
+            · exact hm
+          · have hs : stripCr (x :: t) = x :: t := by
+              unfold stripCr; split
+              · rename_i heq; injection heq with h1 _; exact absurd h1 hx
+              · rfl
+            rw [hs]; exact List.mem_reverse.mpr hmem
+      exact hnqL _ this rfl
+    have hrun := rRun_line raw (fun c hc => ⟨hraw c hc, hnq c hc⟩) rInit [] ('\n' :: rest) rfl (by simp)
+    have hrun' : rRun rInit (raw ++ '\n' :: rest) =
+        rRun { rows := [], cells := (splitAcc [] [] raw).1, mode := modeOf (splitAcc [] [] raw).2, fresh := rInit.fresh && raw.isEmpty } ('\n' :: rest) := by
+      rw [hrun]; simp [rInit]
+    obtain ⟨st2, hstep, hrows2⟩ := newline_line (splitAcc [] [] raw).1 (splitAcc [] [] raw).2
+      (rInit.fresh && raw.isEmpty)
+    simp only [firstRecord, parseCsv, e1, hrun', rRun, hstep] at hr
+    cases hrest : rRun st2 rest with
+    | error e => simp [hrest] at hr
+    | ok st3 =>
+      simp only [hrest] at hr
+      obtain ⟨more, hmore⟩ := rRun_keeps_rows rest st2 st3 hrest
+      cases hfin : rFinish st3 with
+      | error e => simp [hfin] at hr
+      | ok r =>
+        obtain ⟨more', hr'⟩ := rFinish_keeps_rows st3 r hfin
+        simp only [hfin] at hr
+        rw [hr', hmore, hrows2] at hr
+        simp only [List.reverse_append, List.reverse_cons, List.reverse_nil, List.nil_append,
+          List.singleton_append, List.cons_append] at hr
+        injection hr with hr
+        rw [← hr, split_stripCr, splitOn_acc, eL]
+
+/-- **T5.** If `validate_csv_columns` accepts a file, then every header field that `import_csv`
+pastes into its INSERT statements is one of the validated names: free of `;` `'` `"` `(` `)` and,
+trimmed, a column of the table — for every file text.  (The validator reads line 1; the importer
+reads the first RFC 4180 record; the two coincide because a validated line 1 has no double
+quote, so no field can continue on a later line.) -/
+theorem C31_header_agreement (cols : List Str) (text : Str) (hv : validateHeader cols text = true)
+    (h : List Str) (hr : firstRecord text = some h) :
+    ∀ f ∈ h, nameCharsOk f = true ∧ nameOk cols (trim f) = true := by
+  cases hL : firstLine text with
+  | none => simp [validateHeader, hL] at hv
+  | some L =>
+    simp only [validateHeader, hL, List.all_eq_true] at hv
+    have hq : ∀ p ∈ splitOn ',' L, ∀ x ∈ p, x ≠ '"' := by
+      intro p hp x hx hxq
+      subst hxq
+      have hok := hv p hp
+      simp only [nameOk, Bool.and_eq_true] at hok
+      rcases mem_trim p '"' hx with hw | hm
+      · exact absurd hw (by decide)
+      · have := C31_validated_name_inert _ hok.1 '"' hm
+        exact this.2.2.1 rfl
+    have heq := header_record text L hL hq h hr
+    intro f hf
+    rw [heq] at hf
+    have hok := hv f hf
+    refine ⟨?_, hok⟩
+    simp only [nameOk, Bool.and_eq_true] at hok
+    simp only [nameCharsOk, List.all_eq_true, Bool.and_eq_true, decide_eq_true_eq]
+    intro c hc
+    rcases mem_trim f c hc with hw | hm
+    · refine ⟨⟨⟨⟨?_, ?_⟩, ?_⟩, ?_⟩, ?_⟩ <;> (intro e; subst e; exact absurd hw (by decide))
+    · have := C31_validated_name_inert _ hok.1 c hm
+      exact ⟨⟨⟨⟨this.1, this.2.1⟩, this.2.2.1⟩, this.2.2.2.1⟩, this.2.2.2.2⟩
+
+/-- non-vacuity: a header with blanks and other case, CRLF record ends -/
+example : validateHeader [['A'], ['B']] " a ,B\r\n1,2\r\n".toList = true ∧
+    firstRecord " a ,B\r\n1,2\r\n".toList = some [" a ".toList, ['B']] := by decide +kernel
+
+/-- why the validator must not accept what the importer reads differently: were surrounding
+quotes stripped before the check, line 1 `"a","b` would pass while the importer's first record
+continues on line 2 and carries SQL into the statement -/
+theorem C31_quoted_header_spans_lines :
+    firstRecord "\"a\",\"b\n) VALUES ('evil','row') --\"\n1,2\n".toList =
+      some [['a'], "b\n) VALUES ('evil','row') --".toList] ∧
+    validateHeader [['A'], ['B']] "\"a\",\"b\n) VALUES ('evil','row') --\"\n1,2\n".toList = false := by
+  decide +kernel
 
 /-! ## T4 -/
 
